@@ -453,9 +453,34 @@ func coSign(text string, s1, s2, v1, v2 []string) (string, string) {
 		n1 = une.Note
 	}
 	existing := append(sigList(n1.Sigs), sigList(n1.UnverifiedSigs)...)
-	msg2, err := note.Sign(n1, ss2...)
+	// the caller's slices have room behind their last element (they are windows of longer arrays, as after
+	// sigs[:k]); what lies there belongs to the caller
+	sentinel := note.Signature{Name: "sentinel.example", Hash: 0x5e5e5e5e, Base64: "Xl5eXnNlbnRpbmVs"}
+	spare := func(in []note.Signature) []note.Signature {
+		b := make([]note.Signature, len(in), len(in)+3)
+		copy(b, in)
+		full := b[:len(in)+3]
+		full[len(in)], full[len(in)+1], full[len(in)+2] = sentinel, sentinel, sentinel
+		return b
+	}
+	n1.Sigs, n1.UnverifiedSigs = spare(n1.Sigs), spare(n1.UnverifiedSigs)
+	ss2w := make([]note.Signer, len(ss2), len(ss2)+2)
+	copy(ss2w, ss2)
+	msg2, err := note.Sign(n1, ss2w...)
 	if err != nil {
 		return "second Sign failed: " + err.Error(), "cosign"
+	}
+	for _, w := range [][]note.Signature{n1.Sigs, n1.UnverifiedSigs} {
+		for _, e := range w[len(w):cap(w)] {
+			if e != sentinel {
+				return fmt.Sprintf("Sign wrote %v into the caller's array behind the end of a signature list it was given", e), "cosign"
+			}
+		}
+	}
+	for _, e := range ss2w[len(ss2w):cap(ss2w)] {
+		if e != nil {
+			return "Sign wrote into the caller's array behind the end of the signer list", "cosign"
+		}
 	}
 	// Sign must not change the note it is given
 	if after := append(sigList(n1.Sigs), sigList(n1.UnverifiedSigs)...); !eq(after, existing) || n1.Text != text {
